@@ -1,5 +1,6 @@
 import N0Verif.Proofs.XPathSelect2
 import N0Verif.Proofs.XPathSelect3
+import N0Verif.Proofs.XPathAudit
 /-!
 # C06 — wildcard and predicate steps select exactly the matching elements, in order
 
@@ -1189,17 +1190,189 @@ example : firstOf ([[Val.str ['3']]].map single) Val.none = .str ['3'] := (C06_c
 example : firstOf ([[Val.str ['3'], .str ['4']]].map single) Val.none = .list .n0 [.str ['3'], .str ['4']] :=
   (C06_chained_first_cases _ _ (.str ['3']) _).2.2.1 rfl (by decide)
 
-/-- observation (outside `InnerRecs`, hence outside the theorems; the property speaks of LISTS OF RECORDS): an outer
-record whose `t` is a scalar makes the inner predicate step raise `IndexError` ("must be n0dict"), which leaves the
-fan-out loop: the whole lookup is a miss although the second order has a matching record -/
+/-- (was an observation, repaired by fix C06-h; outside `InnerRecs`, hence outside the theorems - the property speaks of LISTS OF
+RECORDS): an outer record whose `t` is a scalar made the inner predicate step raise `IndexError` ("must be n0dict"), which left
+the fan-out loop, so that the whole lookup was a miss although the second order has a matching record.  A single value now simply
+does not satisfy the condition: that parent contributes nothing, the other parents are selected. -/
 def ordersScalarInner : Val :=
   .dict .n0 [(['o'], .list .plain [
     .dict .plain [(['i'], .str ['1']), (['t'], .str ['x'])],
     .dict .plain [(['i'], .str ['1']), (['t'], .list .plain [.dict .plain [(['s'], .str ['B']), (['q'], .str ['4'])]])]])]
-example : (XPath.get 80 ordersScalarInner ['o', '[', 'i', '=', '1', ']', '/', 't', '[', 's', '=', 'B', ']', '/', 'q'] (.str ['D'])).2
-      = .ok (.str ['D'])
+theorem C06_scalar_inner_example :
+    (XPath.get 80 ordersScalarInner ['o', '[', 'i', '=', '1', ']', '/', 't', '[', 's', '=', 'B', ']', '/', 'q'] (.str ['D'])).2
+      = .ok (.list .n0 [.list .n0 [.str ['4']]])
     ∧ (XPath.getItem 80 ordersScalarInner ['o', '[', 'i', '=', '1', ']', '/', 't', '[', 's', '=', 'B', ']', '/', 'q']).2
-      = .error .IndexError := by
+      = .ok (.list .n0 [.list .n0 [.str ['4']]])
+    ∧ (XPath.first 80 ordersScalarInner ['o', '[', 'i', '=', '1', ']', '/', 't', '[', 's', '=', 'B', ']', '/', 'q'] (.str ['D'])).2
+      = .ok (.str ['4']) := by
   decide +kernel
+
+/-! ## n0list-rooted record lists (fix C06-f)
+
+The record list is itself the root container (an `n0list` of dict records; `P` is the empty path).  Before the fix
+`n0list._find` handed a dict element to `n0dict._find` with the ELEMENT as `self`, so that the `'..'` of a (rewritten)
+condition resolved the text `/[j]/k` inside the element: every predicate on a list root missed, except by accident on
+element 0; a condition written on the root list raised "Impossible to have complex index for lists", the shorthand `/f` was
+NOT FOUND. -/
+
+/-- **C06 (fan-out, the root list is the record list).**  For an n0list `rs` of dict records, `[*]/f`, `/[*]/f` and the
+shorthand `/f` return `[r[f] for r in rs if f in r]` through `get`, item access and `first`; the list is unchanged. -/
+theorem C06_star_list_root (lc : Cls) (rs : List Val) (f : Str) (d : Val) (hf : PlainKey f) (hrs : ∀ r ∈ rs, isDict r = true)
+    (fuel : Nat) (hfuel : fuel ≥ rs.length + 6) :
+    ∀ xp ∈ [bracket ['*'] ++ slash ++ f, slash ++ bracket ['*'] ++ slash ++ f, slash ++ f],
+      XPath.get fuel (.list lc rs) xp d = (.list lc rs, .ok (selected (selectF f rs) d)) ∧
+      getItem fuel (.list lc rs) xp = (.list lc rs, selectedItem (selectF f rs)) ∧
+      first fuel (.list lc rs) xp d = (.list lc rs, .ok (firstOf (selectF f rs) d)) := by
+  intro xp hxp
+  simp only [List.mem_cons, List.not_mem_nil, or_false] at hxp
+  have hg1 : GoodG [.br ['*'], .key f] := ⟨sel2_gBr_star, hf.gKey, trivial⟩
+  have hg2 : GoodG [.key f] := ⟨hf.gKey, trivial⟩
+  have hsel := fun rl => xa_star_list_root lc rs rl f hrs hf fuel hfuel
+  rw [← selectF_eq]
+  rcases hxp with rfl | rfl | rfl
+  · refine xa_select_api lc rs _ [bracket ['*'], f] _ d fuel (by simp [bracket, startsWith]) (by simp [hasPathChar, bracket]) ?_
+      (fun rl => hsel rl _ (by simp))
+    have := sel3_tokenize_render_br ['*'] [.key f] hg1
+    simpa [sel2Render, sel2RenderSeg, sel2Toks, bracket, slash] using this
+  · refine xa_select_api lc rs _ [bracket ['*'], f] _ d fuel (by simp [slash, startsWith]) (by simp [hasPathChar, slash]) ?_
+      (fun rl => hsel rl _ (by simp))
+    have := sel2_tokenize [.br ['*'], .key f] hg1
+    simpa [sel2Render, sel2RenderSeg, sel2Toks, bracket, slash] using this
+  · refine xa_select_api lc rs _ [f] _ d fuel (by simp [slash, startsWith]) (by simp [hasPathChar, slash]) ?_
+      (fun rl => hsel rl _ (by simp))
+    have := sel2_tokenize [.key f] hg2
+    rw [show sel2Render [.key f] = '/' :: f by simp [sel2Render, sel2RenderSeg], tokenize_slash] at this
+    simpa [sel2Toks, slash] using this
+
+/-- **C06 (predicates, the root list is the record list).**  For an n0list `rs` of dict records, `[k op v]/f`, `/[k op v]/f`
+(a condition written on the root list itself), `k[text() op v]/../f` and `/k[text() op v]/../f` - any operator and literal
+spelling - return `f` of exactly the records that have `k` and whose `k` passes the comparison, in list order, through `get`,
+item access and `first`; the list is unchanged.  (`'..'` resolves the text `/[j]` again from the ROOT list: `self` of the
+dict-side search is the list the lookup started from.) -/
+theorem C06_pred_list_root (lc : Cls) (rs : List Val) (k f opx op vq v : Str) (d : Val)
+    (hk : FieldKey k) (hf : PlainKey f) (hop : OpSpell opx op) (hlit : LitSpell vq v) (hv : PlainLit v)
+    (hrs : ∀ r ∈ rs, isDict r = true) (hg : ComparableK k v rs) (fuel : Nat) (hfuel : fuel ≥ rs.length + 12) :
+    ∀ xp ∈ [bracket (k ++ opx ++ vq) ++ slash ++ f, slash ++ bracket (k ++ opx ++ vq) ++ slash ++ f,
+            k ++ bracket (sTextFn ++ opx ++ vq) ++ slash ++ ['.', '.'] ++ slash ++ f,
+            slash ++ k ++ bracket (sTextFn ++ opx ++ vq) ++ slash ++ ['.', '.'] ++ slash ++ f],
+      XPath.get fuel (.list lc rs) xp d
+        = (.list lc rs, .ok (selected (selectWhere k f (condTest op (.str v)) rs) d)) ∧
+      getItem fuel (.list lc rs) xp = (.list lc rs, selectedItem (selectWhere k f (condTest op (.str v)) rs)) ∧
+      first fuel (.list lc rs) xp d = (.list lc rs, .ok (firstOf (selectWhere k f (condTest op (.str v)) rs) d)) := by
+  intro xp hxp
+  simp only [List.mem_cons, List.not_mem_nil, or_false] at hxp
+  have hg1 : GoodG [.br (k ++ opx ++ vq), .key f] := ⟨sel2_gBr_cond k opx op vq v hk.cond hop hlit hv, hf.gKey, trivial⟩
+  have hg2 : GoodG [.key k, .br (sTextFn ++ opx ++ vq), .key ['.', '.'], .key f] :=
+    ⟨hk.plain.gKey, sel2_gBr_cond sTextFn opx op vq v condKey_text hop hlit hv, sel2_gKey_up, hf.gKey, trivial⟩
+  have hsel := fun rl => xa_pred_list_root lc rs rl k f opx op vq v hk hf hop hlit hv hrs hg.guard fuel hfuel
+  rw [← selectWhere_eq]
+  rcases hxp with rfl | rfl | rfl | rfl
+  · refine xa_select_api lc rs _ [bracket (k ++ opx ++ vq), f] _ d fuel (by simp [bracket, startsWith])
+      (by simp [hasPathChar, bracket]) ?_ (fun rl => hsel rl _ (by simp))
+    have := sel3_tokenize_render_br (k ++ opx ++ vq) [.key f] hg1
+    simpa [sel2Render, sel2RenderSeg, sel2Toks, bracket, slash] using this
+  · refine xa_select_api lc rs _ [bracket (k ++ opx ++ vq), f] _ d fuel (by simp [slash, startsWith])
+      (by simp [hasPathChar, slash]) ?_ (fun rl => hsel rl _ (by simp))
+    have := sel2_tokenize [.br (k ++ opx ++ vq), .key f] hg1
+    simpa [sel2Render, sel2RenderSeg, sel2Toks, bracket, slash] using this
+  · refine xa_select_api lc rs _ [k ++ bracket (sTextFn ++ opx ++ vq), ['.', '.'], f] _ d fuel
+      (by simpa [List.append_assoc] using hk.plain.head_ne_q (bracket (sTextFn ++ opx ++ vq) ++ slash ++ ['.', '.'] ++ slash ++ f))
+      (by simp [hasPathChar, slash]) ?_ (fun rl => hsel rl _ (by simp))
+    have := sel3_tokenize_render_key k [.br (sTextFn ++ opx ++ vq), .key ['.', '.'], .key f] hg2
+    simpa [sel2Render, sel2RenderSeg, sel2Toks, bracket, slash, List.append_assoc] using this
+  · refine xa_select_api lc rs _ [k ++ bracket (sTextFn ++ opx ++ vq), ['.', '.'], f] _ d fuel (by simp [slash, startsWith])
+      (by simp [hasPathChar, slash]) ?_ (fun rl => hsel rl _ (by simp))
+    have := sel2_tokenize [.key k, .br (sTextFn ++ opx ++ vq), .key ['.', '.'], .key f] hg2
+    rw [show sel2Render [.key k, .br (sTextFn ++ opx ++ vq), .key ['.', '.'], .key f]
+        = '/' :: (k ++ sel2Render [.br (sTextFn ++ opx ++ vq), .key ['.', '.'], .key f]) by simp [sel2Render, sel2RenderSeg],
+      tokenize_slash] at this
+    simpa [sel2Render, sel2RenderSeg, sel2Toks, bracket, slash, List.append_assoc] using this
+
+/-- the audit's witnesses on list roots, through the model: the flat record list `[{k: 1, f: a}, {k: 2, f: b}]` (a condition on
+the root list, `[*][k=2]`, the text() form, '..' from a field back to the record) and the orders list (an indexed / starred /
+conditioned `P` in front of an inner predicate: '..' comes back to the right parent) -/
+def flatList : List Val :=
+  [.dict .n0 [(['k'], .str ['1']), (['f'], .str ['a'])], .dict .n0 [(['k'], .str ['2']), (['f'], .str ['b'])]]
+def flatRoot : Val := .list .n0 flatList
+def ordersRoot : Val :=
+  .list .n0 [
+    .dict .n0 [(['i'], .str ['1']), (['t'], .list .n0 [.dict .n0 [(['s'], .str ['A']), (['q'], .int 1)], .dict .n0 [(['s'], .str ['B']), (['q'], .int 2)]])],
+    .dict .n0 [(['i'], .str ['2']), (['t'], .list .n0 [.dict .n0 [(['s'], .str ['B']), (['q'], .int 3)]])]]
+theorem C06_list_root_example :
+    (XPath.getItem 60 flatRoot ['[', 'k', '=', '2', ']', '/', 'f']).2 = .ok (.list .n0 [.str ['b']]) ∧
+    (XPath.getItem 60 flatRoot ['[', '*', ']', '[', 'k', '=', '2', ']', '/', 'f']).2 = .ok (.list .n0 [.str ['b']]) ∧
+    (XPath.getItem 60 flatRoot ['[', '*', ']', '/', 'k', '[', 't', 'e', 'x', 't', '(', ')', '=', '2', ']', '/', '.', '.', '/', 'f']).2
+      = .ok (.list .n0 [.str ['b']]) ∧
+    (XPath.getItem 60 flatRoot ['[', '1', ']', '/', 'k', '/', '.', '.', '/', 'f']).2 = .ok (.str ['b']) ∧
+    (XPath.getItem 60 flatRoot ['/', 'f']).2 = .ok (.list .n0 [.str ['a'], .str ['b']]) ∧
+    (XPath.getItem 80 ordersRoot ['[', '1', ']', '/', 't', '[', 's', '=', 'B', ']', '/', 'q']).2 = .ok (.list .n0 [.int 3]) ∧
+    (XPath.getItem 80 ordersRoot ['[', '*', ']', '/', 't', '[', 's', '=', 'B', ']', '/', 'q']).2
+      = .ok (.list .n0 [.list .n0 [.int 2], .list .n0 [.int 3]]) ∧
+    (XPath.getItem 80 ordersRoot ['[', 'i', '=', '2', ']', '/', 't', '[', 's', '=', 'B', ']', '/', 'q']).2
+      = .ok (.list .n0 [.list .n0 [.int 3]]) := by
+  decide +kernel
+/-- … and through the theorems -/
+example : (XPath.get 20 flatRoot ['[', 'k', '=', '2', ']', '/', 'f'] .none) = (flatRoot, .ok (.list .n0 [.str ['b']])) := by
+  have := (C06_pred_list_root .n0 flatList ['k'] ['f'] ['='] _ _ ['2'] .none fieldKey_k plainKey_f .eq1 (.bare ['2'])
+    ⟨by decide, by decide, by decide⟩ (by decide) (by decide) 20 (by decide) _ (List.mem_cons_self ..)).1
+  rw [show selectWhere ['k'] ['f'] (condTest ['=', '='] (.str ['2'])) flatList = [.str ['b']] by decide] at this
+  exact this
+example : (XPath.first 20 flatRoot ['/', 'f'] .none) = (flatRoot, .ok (.list .n0 [.str ['a'], .str ['b']])) :=
+  (C06_star_list_root .n0 flatList ['f'] .none plainKey_f (by decide) 20 (by decide) _ (by simp [slash])).2.2
+
+/-! ## literal values a condition cannot express (finding C06-g, open)
+
+`PlainLit v` (the hypothesis of every predicate theorem above) excludes blanks, quotes, brackets, `/`, `=`, `~`, `*`, `?`, `%` and the
+texts `true()` / `false()`.  The property quantifies over "all literal values v occurring or not occurring in the data … quoted or
+unquoted v"; for a value outside `PlainLit` that DOES occur in the data the engine selects nothing (or other records): the path is
+split on `/` before the quotes are looked at, the operator table is searched inside the quotes, and the parsed condition is written
+back to text and parsed again twice (`[k=='v']`, then `[text()==v]`), each time stripping blanks and one layer of quotes (and
+percent-decoding).  Counter-examples, evaluated by the model (which agrees with the implementation on them); the reference
+comprehension selects the record in every case. -/
+
+def litTree (v : Str) : Val :=
+  .dict .n0 [(['r'], .list .n0 [.dict .n0 [(['k'], .str v), (['f'], .str ['h', 'i', 't'])], .dict .n0 [(['k'], .str ['A']), (['f'], .str ['o'])]])]
+def litRecs (v : Str) : List Val :=
+  [.dict .n0 [(['k'], .str v), (['f'], .str ['h', 'i', 't'])], .dict .n0 [(['k'], .str ['A']), (['f'], .str ['o'])]]
+
+/-- **C06-g, `~` inside a quoted literal**: `r[k='a~b']/f` misses although one record has `k == 'a~b'` (the operator table finds
+`~` inside the quotes: key `k='a`, value `b'`); the `text()` form misses too -/
+theorem C06_literal_tilde_cex :
+    selectWhere ['k'] ['f'] (fieldEq ['a', '~', 'b']) (litRecs ['a', '~', 'b']) = [.str ['h', 'i', 't']] ∧
+    (XPath.get 60 (litTree ['a', '~', 'b']) ['r', '[', 'k', '=', '\'', 'a', '~', 'b', '\'', ']', '/', 'f'] (.str ['D'])).2 = .ok (.str ['D']) ∧
+    (XPath.get 60 (litTree ['a', '~', 'b'])
+      ['r', '/', 'k', '[', 't', 'e', 'x', 't', '(', ')', '=', '\'', 'a', '~', 'b', '\'', ']', '/', '.', '.', '/', 'f'] (.str ['D'])).2
+      = .ok (.str ['D']) := by
+  decide +kernel
+
+/-- **C06-g, `/` inside a quoted literal**: `r[k='a/b']/f` misses (the path is split on `/` first: tokens `r[k='a` and `b']`) -/
+theorem C06_literal_slash_cex :
+    selectWhere ['k'] ['f'] (fieldEq ['a', '/', 'b']) (litRecs ['a', '/', 'b']) = [.str ['h', 'i', 't']] ∧
+    (XPath.get 60 (litTree ['a', '/', 'b']) ['r', '[', 'k', '=', '\'', 'a', '/', 'b', '\'', ']', '/', 'f'] (.str ['D'])).2 = .ok (.str ['D']) := by
+  decide +kernel
+
+/-- **C06-g, a blank at the end of a quoted literal - the two forms the property declares equivalent differ**: `r[k=' x']/f`
+misses (the re-serialised `[text()== x]` is stripped), `r/k[text()=' x']/../f` selects the record -/
+theorem C06_literal_blank_cex :
+    selectWhere ['k'] ['f'] (fieldEq [' ', 'x']) (litRecs [' ', 'x']) = [.str ['h', 'i', 't']] ∧
+    (XPath.get 60 (litTree [' ', 'x']) ['r', '[', 'k', '=', '\'', ' ', 'x', '\'', ']', '/', 'f'] (.str ['D'])).2 = .ok (.str ['D']) ∧
+    (XPath.get 60 (litTree [' ', 'x'])
+      ['r', '/', 'k', '[', 't', 'e', 'x', 't', '(', ')', '=', '\'', ' ', 'x', '\'', ']', '/', '.', '.', '/', 'f'] (.str ['D'])).2
+      = .ok (.list .n0 [.str ['h', 'i', 't']]) := by
+  decide +kernel
+
+/-- **C06-g, a literal that is itself quoted**: `r[k="'a'"]/f` misses (the second parse takes the inner quotes off too), the
+`text()` form selects the record -/
+theorem C06_literal_quoted_cex :
+    selectWhere ['k'] ['f'] (fieldEq ['\'', 'a', '\'']) (litRecs ['\'', 'a', '\'']) = [.str ['h', 'i', 't']] ∧
+    (XPath.get 60 (litTree ['\'', 'a', '\'']) ['r', '[', 'k', '=', '"', '\'', 'a', '\'', '"', ']', '/', 'f'] (.str ['D'])).2 = .ok (.str ['D']) ∧
+    (XPath.get 60 (litTree ['\'', 'a', '\''])
+      ['r', '/', 'k', '[', 't', 'e', 'x', 't', '(', ')', '=', '"', '\'', 'a', '\'', '"', ']', '/', '.', '.', '/', 'f'] (.str ['D'])).2
+      = .ok (.list .n0 [.str ['h', 'i', 't']]) := by
+  decide +kernel
+
+/-- the same paths with a plain literal select the record (the witnesses are not vacuous) -/
+example : (XPath.get 60 (litTree ['a', 'b']) ['r', '[', 'k', '=', '\'', 'a', 'b', '\'', ']', '/', 'f'] (.str ['D'])).2
+    = .ok (.list .n0 [.str ['h', 'i', 't']]) := by decide +kernel
 
 end N0.C06
